@@ -590,6 +590,12 @@ func runJob(w *World, job Job) (res *JobResult) {
 			res.Truncated = true
 			break
 		}
+		// a job whose queries the solvers cannot decide is abandoned (and reported inconclusive)
+		// instead of spending a solver timeout on every remaining path
+		if res.Inconclusive >= 8 {
+			res.Truncated = true
+			break
+		}
 		prefix := ex.work[len(ex.work)-1]
 		ex.work = ex.work[:len(ex.work)-1]
 		ex.resetPath(prefix)
